@@ -241,6 +241,19 @@ def two_signal_loop(n_limit: int, c0: int, watchers: int = 1, name: str = "twosi
     return {"spec": {"name": name, "nodes": nodes, "bind": {}}, "inputs": inputs, "ref": ref, "template": f"two-signal(watchers={watchers})"}
 
 
+def lagging_waiter_loop(limit: int, w_first: bool = True, name: str = "lagw"):
+    """A producer P (emits `sig`) that runs in EVERY iteration and a waiter W (waits for `sig`) whose data input `j`
+    changes only every second iteration: bump(data)->(i, j=i//2); P(i)->data [sig]; W(j)->out; cont(data) loops to
+    bump.  When W goes stale again it already holds a signal it never consumed (from the iteration it sat out), and P
+    is stale in the very same step: W must still start only after P completed for the current iteration."""
+    W = {"k": "fn", "name": "W", "params": [{"n": "j"}], "outs": ["out"], "wait": ["sig"], "beh": ["id", "j"]}
+    P = {"k": "fn", "name": "P", "params": [{"n": "i"}], "outs": ["data"], "emit": ["sig"], "beh": ["id", "i"]}
+    bump = {"k": "fn", "name": "bump", "params": [{"n": "data"}], "outs": ["i", "j"], "beh": ["inc_half", "data"]}
+    cont = {"k": "route", "name": "cont", "params": [{"n": "data"}], "targets": ["bump", "END"], "cond": ["ge", "data", limit], "then": "END", "else": "bump", "open": True}
+    nodes = [W, P, bump, cont] if w_first else [P, bump, cont, W]
+    return {"spec": {"name": name, "nodes": nodes, "bind": {}}, "inputs": {"i": 0}, "ref": None, "template": f"lagging-waiter(w_first={w_first})"}
+
+
 def const_feed_loop(n_limit: int, c0: int, name: str = "cfeed"):
     """`while count < N: count += 1; one = const(count); total = acc(total, one)`: the accumulator is fed by a body
     node that produces an EQUAL value in every iteration. In the sequential loop it still runs once per iteration."""
